@@ -382,6 +382,39 @@ def reject_probes(rec):
                 if holder == "module":
                     h.to_proto(tgt)
             must_raise(f"BundleInstance(of={what}) added to a {holder}" + (" and exported" if holder == "module" else ""), attempt, "bundle-instance-of-non-bundle-accepted")
+    # a member of a Bundle definition re-named after it was added: reported whichever way the Bundle is used
+    for use in ("bundle-instance", "bundle-port", "instance-bundle", "sub-bundle"):
+        for when in ("before-first-use", "after-another-module-used-it"):
+            def attempt(use=use, when=when):
+                uid = next(_ctr)
+                MyB = h.Bundle(name=f"RnB{uid}")
+                MyB.add(h.Signal(), name="p")
+                MyB.add(h.Signal(), name="n")
+                if when != "before-first-use":
+                    other = h.Module(name=f"RnO{uid}")
+                    other.add(MyB(), name="b")
+                    other.add(h.R(r=1)(p=other.b.p, n=other.b.n), name="r")
+                    h.elaborate(other)
+                MyB.p.name = "q"
+                m = h.Module(name=f"RnM{uid}")
+                m.add(h.Signal(), name="s")
+                E2 = h.ExternalModule(name=f"RnE{uid}", port_list=[h.Port(name="z")], paramtype=h.HasNoParams)
+                if use == "bundle-instance":
+                    m.add(MyB(), name="b")
+                    m.add(h.R(r=1)(p=m.b.p, n=m.b.n), name="r")
+                elif use == "bundle-port":
+                    m.add(MyB(port=True), name="b")
+                    m.add(h.R(r=1)(p=m.b.p, n=m.b.n), name="r")
+                elif use == "instance-bundle":
+                    T = h.InstanceBundleType(name=f"RnT{uid}", bundle=MyB)
+                    m.add(T(E2())(z=m.s), name="ib")
+                else:
+                    Outer = h.Bundle(name=f"RnOuter{uid}")
+                    Outer.add(MyB(), name="inner")
+                    m.add(Outer(), name="b")
+                    m.add(h.R(r=1)(p=m.b.inner.p, n=m.b.inner.n), name="r")
+                h.to_proto(m)
+            must_raise(f"a Bundle member re-named after add, Bundle used as {use} ({when})", attempt, "renamed-bundle-member-accepted")
     for name in mod_banned:
         must_raise(f"Module.__setattr__('{name}', Signal)", lambda n=name: setattr(h.Module(name="P"), n, h.Signal()), "reserved-name-accepted:setattr")
         must_raise(f"Module.add(Signal, name='{name}')", lambda n=name: h.Module(name="P").add(h.Signal(), name=n), "reserved-name-accepted:add")
